@@ -10,6 +10,9 @@ wrapped call (= a file-write boundary = a possible crash point) the whole
 output tree is scanned for the API key (raw, base64 at the three byte alignments, hex,
 reversed; inside zip members too).  Result: JSON written to spec["result"].
 
+Chunk creation is observed too (round 4): at every boundary the chunk directories are polled, a directory that
+starts to hold files yields a `mkchunks` event.
+
 Spec fields (all but the first six optional; defaults reproduce the round-1 runs):
   model_type, framework (torch_dataset | torch_dataset_np_chunks | litdata), use_wandb, save_ckpt,
   structured, delete_chunks,
@@ -20,8 +23,9 @@ Spec fields (all but the first six optional; defaults reproduce the round-1 runs
                  framework to np_chunks mid-run (chunks under ./train_chunks, ./val_chunks of the cwd)
   fault          {"at": "fit_return" | "fit_start" | "ckpt_hook" | "dataset" | "after_initial",
                   "kind": "runtime" | "ki"}   (legacy: inject_fit_fault=True == fit_return/runtime)
-  opts           nuisance options that must not change the observable behaviour: early_stopping,
-                 profiler, steps_per_epoch, save_top_k, save_last, chunk_size, scale, crop_auto,
+  opts           save_top_k / save_last (factors of the grid: they decide whether a checkpoint is written), and
+                 nuisance options that must not change the observable behaviour: early_stopping,
+                 profiler, steps_per_epoch, chunk_size, scale, crop_auto,
                  max_epochs, strategy, explicit_names (head part_names / edges spelled out instead of None)
 """
 from __future__ import annotations
@@ -206,6 +210,21 @@ class Observer:
         self.patterns = key_patterns(key)
         self.events: list[dict] = []
         self.encodings_hit: dict[str, str] = {}
+        self.chunk_dirs: list[Path] = []          # directories whose becoming non-empty is an event (`mkchunks`)
+        self.chunk_state: dict[str, bool] = {}
+
+    def poll_chunks(self, silent: bool = False):
+        """chunk creation is observed from outside the repo code: a watched directory that held no file at the
+        last boundary and holds one now yields a `mkchunks` event (placed BEFORE the event being recorded)"""
+        for d in self.chunk_dirs:
+            try:
+                now = d.is_dir() and any(p.is_file() for p in d.rglob("*"))
+            except OSError:
+                now = False
+            r = self.rel(d)
+            if now and not self.chunk_state.get(r, False) and not silent:
+                self.events.append({"kind": "mkchunks", "file": r})
+            self.chunk_state[r] = now
 
     def rel(self, p) -> str:
         p = Path(os.path.abspath(str(p)))
@@ -260,6 +279,7 @@ class Observer:
         return sorted(hits)
 
     def event(self, kind: str, path=None, **kw):
+        self.poll_chunks()
         ev = {"kind": kind, "file": None if path is None else self.rel(path)}
         if path is not None and kind != "rmtree":
             ev["key_in_file"] = self.has_key(Path(str(path)))
@@ -331,6 +351,7 @@ def install_hooks(obs: Observer):
     def rmtree(path, *a, **k):
         inside = not obs.rel(path).startswith("!outside:")
         existed = Path(str(path)).exists()
+        obs.poll_chunks()                       # what was created since the last boundary, before it is removed
         r = orig_rm(path, *a, **k)
         if inside:
             obs.event("rmtree", path, existed=existed)
@@ -507,6 +528,9 @@ def main():
             obs.events.append({"kind": "hook-missing", "what": "wandb.init", "err": str(e)})
         res["wandb_run_ids"] = run_ids
         res["wandb_logins"] = logins
+        obs.chunk_dirs = [b / d for b in (Path(spec["chunks_dir"]), cwd, out_dir) for d in ("train_chunks", "val_chunks")]
+        obs.poll_chunks(silent=True)            # re-used chunks are the initial state, not an event
+        res["chunks_at_start"] = sorted(k_ for k_, v_ in obs.chunk_state.items() if v_)
         obs.event("start")
         phase = "init"
         trainer = None
